@@ -14,6 +14,7 @@ IsValidCall(e) ==
       [] e.a = "DelTag"   -> DelTagOK(e.name)
       [] e.a = "UpdQuery" -> UpdQueryOK(e.name, e.def)
       [] e.a \in {"MarkAdd", "MarkDel"} -> MarkOK(e.name, Range(e.ids))
+      [] e.a = "SetConverters" -> SetConvOK(e.name, Range(e.convs))
       [] OTHER -> TRUE
 GenNext ==
     /\ Len(hist) < MaxLen
